@@ -639,6 +639,12 @@ fn reach_probes(p: &PReg) {
         });
     }
     probe_max("max.registry_entries", n as u64);
+    if n > 256 {
+        probe("reach.registry_above_256_entries");
+    }
+    if n > 1000 {
+        probe("reach.registry_above_1000_entries");
+    }
 }
 
 fn all_props_panic(mask: Mask, engine_props: &[&'static str], msg: String) -> Violation {
@@ -713,6 +719,40 @@ fn apply_catching_unwind(reg: &mut Registry, req: &Req) -> Option<Vec<u32>> {
     }
 }
 
+/// Nodes a reference mentions directly (the wrapper's own node and, for the
+/// two-parameter wrappers, the second one).
+fn mentioned_nodes(t: TyRef) -> Vec<u8> {
+    if t.w == W::Corpus {
+        return vec![];
+    }
+    let mut v = vec![t.n % K as u8];
+    if matches!(t.w, W::Result | W::ResultSwap | W::BTreeMap | W::Tup2 | W::Tup3Ph | W::Tup12 | W::RefTup2 | W::DPair) {
+        v.push(universe::second_of(t.n));
+    }
+    v
+}
+
+/// Can the type `t` denotes reach (or is it) one of the `fired` nodes, over the
+/// references of the node specifications?
+fn reaches_fired(nodes: &[universe::NodeSpec], t: TyRef, fired: &[u8]) -> bool {
+    let mut seen = [false; K];
+    let mut stack = mentioned_nodes(t);
+    while let Some(n) = stack.pop() {
+        let n = n as usize % K;
+        if seen[n] {
+            continue;
+        }
+        seen[n] = true;
+        if fired.contains(&(n as u8)) {
+            return true;
+        }
+        for r in nodes[n].refs() {
+            stack.extend(mentioned_nodes(r));
+        }
+    }
+    false
+}
+
 /// Fault-injecting configuration of regsim (C11 only): some `type_info()`
 /// calls unwind once in the middle of a registration.  The oracle is relaxed
 /// deliberately and narrowly: the failed registration may leave an id without
@@ -729,16 +769,29 @@ fn execute_faulted(scn: &RegScenario, mask: Mask) -> Result<RegResult, Violation
         events: scn.owner.len() as u64,
         ..Default::default()
     };
+    let mut plan = scn.unwind_nodes.clone();
+    plan.sort_unstable();
+    plan.dedup();
     universe::reset_counters();
-    universe::plan_unwinds(&scn.unwind_nodes);
+    universe::plan_unwinds(&plan);
     let mut reg = Registry::new();
     let mut seen: BTreeMap<u32, Type<PortableForm>> = BTreeMap::new();
     let mut fired_at: Option<usize> = None;
     let mut key_to_id: BTreeMap<Tx, u32> = BTreeMap::new();
     let mut id_to_key: BTreeMap<u32, Tx> = BTreeMap::new();
+    let mut fired_nodes: Vec<u8> = Vec::new();
     for (e, d) in scn.owner.iter().enumerate() {
         probe("events.delivery");
+        let fired_before = universe::unwinds_fired();
         let outcome_ids = apply_catching_unwind(&mut reg, &d.req);
+        if universe::unwinds_fired() > fired_before {
+            // which planned nodes are gone from the plan: those fired
+            for l in &plan {
+                if !fired_nodes.contains(l) && !universe::unwind_still_planned(*l) {
+                    fired_nodes.push(*l);
+                }
+            }
+        }
         match &outcome_ids {
             None => {
                 probe("fault.unwind_in_type_info.fired");
@@ -806,6 +859,28 @@ fn execute_faulted(scn: &RegScenario, mask: Mask) -> Result<RegResult, Violation
             }
         }
         let now: BTreeMap<u32, &Type<PortableForm>> = reg.types().map(|(k, t)| (k.id, t)).collect();
+        // An id handed out by a successful registration resolves - unless the
+        // type can reach a node whose type_info() unwound (such a type may
+        // have been on the stack when the unwind happened and stays interned
+        // without a definition: that is the unchanged tree's behaviour).
+        if let (Some(ids), Req::Register(_) | Req::RegisterMany(_)) = (&outcome_ids, &d.req) {
+            let refs = d.req.refs();
+            if refs.len() == ids.len() {
+                for (t, id) in refs.iter().zip(ids) {
+                    if now.contains_key(id) {
+                        continue;
+                    }
+                    if !reaches_fired(&scn.nodes, *t, &fired_nodes) {
+                        fail(mask, "C11", "fault.handed_out_id_without_definition", || {
+                            format!(
+                                "event {}: {} got id {} which has no definition, although it cannot reach a node whose type_info() unwound (unwound: {:?})",
+                                e, t.show(), id, fired_nodes
+                            )
+                        })?;
+                    }
+                }
+            }
+        }
         for (id, old) in &seen {
             match now.get(id) {
                 None => {
@@ -850,7 +925,7 @@ fn execute_faulted(scn: &RegScenario, mask: Mask) -> Result<RegResult, Violation
     core::log_bytes(&bytes);
     // replay with the same faults
     universe::reset_counters();
-    universe::plan_unwinds(&scn.unwind_nodes);
+    universe::plan_unwinds(&plan);
     let mut reg = Registry::new();
     for d in &scn.owner {
         let _ = apply_catching_unwind(&mut reg, &d.req);
